@@ -137,10 +137,6 @@ impl<A: Float> PolytopeG<A> {
             forall|x: V| x.len() == dim ==> (#[trigger] r.sat(x) <==> forall|k: int| 0 <= k < polys@.len() ==> (#[trigger] polys@[k]).sat(x)),
     { unimplemented!() }
 }
-// every input whose evaluation passes node n satisfies q
-pub open spec fn edge_covers<const K: usize>(a: AArena<K>, root: usize, n: usize, q: Polytope, in_dim: usize) -> bool {
-    forall|h: Map<usize, nat>, x: V| #![trigger reaches(a, h, root, x, n)] ranked_down(a, h) && x.len() == in_dim && reaches(a, h, root, x, n) ==> q.sat(x)
-}
 pub open spec fn path_nodes(p: Seq<(usize, usize)>, node: usize) -> Seq<usize> { Seq::new(p.len() + 1, |i: int| if i < p.len() { p[i].0 } else { node }) }
 pub proof fn lemma_path_push<N, const K: usize>(a: Arena<N, K>, p: Seq<(usize, usize)>, parent: usize, label: usize, node: usize)
     requires path_ok(a, p, parent), a.dom().contains(parent), label < K, a[parent].children[label as int] == Some(node)
@@ -213,12 +209,6 @@ impl<const K: usize> AffTree<K> {
 #[verifier::external_body]
 pub fn mirror_points(poly: &Polytope, points: &Array2<f64>, n_iterations: usize) -> (r: Option<(Array2<f64>, usize)>)
 { unimplemented!() }
-// the path polytope (uses the interior-mutable scratch buffer, rule S4): named, otherwise arbitrary
-#[verifier::external_body]
-pub fn polyhedral_path_characterization(&self, path: &Vec<(TreeIndex, Label)>) -> (r: Polytope)
-    ensures r == path_poly(self.a(), path@)
-{ unimplemented!() }
-
 //@fn src/pwl/impl_infeasible_elim.rs | impl<const K: usize> AffTree<K> | phase_inh
 //@bodysub tree.node_value(parent_idx).unwrap() => tree.tree_node(parent_idx).unwrap().value
 //@bodysub let parent_value = self. => let parent_value = &self.
@@ -253,27 +243,9 @@ pub fn polyhedral_path_characterization(&self, path: &Vec<(TreeIndex, Label)>) -
         r is Feasible ==> lp_status(*poly) is Unbounded,
 //@end
 
-//@fn src/pwl/impl_infeasible_elim.rs | impl<const K: usize> AffTree<K> | is_edge_feasible
-//@bodysub tree.node_value(node_idx).unwrap() => tree.tree_node(node_idx).unwrap().value
-//@bodysub let node = self. => let node = &self.
-//@bodysub wit.iter().any(|point| poly.contains(point)) => any_contained(&poly, wit)
-//@spec
-    requires self.tree.wf(),
-        parent_idx != 0 ==> self.a().dom().contains(node_idx) && self.a()[node_idx].parent == Some(parent_idx),
-    ensures
-        // edges leaving node 0 (the root of every tree the library builds) are always reported feasible
-        parent_idx == 0 ==> r,
-        // C11 / C03: the edge is reported infeasible only on an Infeasible verdict: a cached Infeasible state of the node or of its parent, or the LP answer
-        // Infeasible for the path polytope; LP Error / Unbounded / Optimal answers (and any witness, however displaced) give "feasible"
-        !r ==> self.a()[node_idx].value.state is Infeasible || self.a()[parent_idx].value.state is Infeasible
-            || exists|path: Seq<(usize, usize)>| lp_status(#[trigger] path_poly(self.a(), path)) is Infeasible,
-        // cached verdicts are honoured
-        parent_idx != 0 && self.a()[node_idx].value.state is Infeasible ==> !r,
-        parent_idx != 0 && (self.a()[node_idx].value.state is Feasible || self.a()[node_idx].value.state is FeasibleWitness) ==> r,
-//@end
 
-// ---- the same decision logic with the path polytope built for real (binary trees): what an "infeasible" verdict means for inputs ----
-//@fn src/pwl/impl_infeasible_elim.rs | impl<const K: usize> AffTree<K> | polyhedral_path_characterization | as=polyhedral_path_characterization_v
+// ---- is_edge_feasible with the path polytope built by the real polyhedral_path_characterization (binary trees): what an "infeasible" verdict means for inputs ----
+//@fn src/pwl/impl_infeasible_elim.rs | impl<const K: usize> AffTree<K> | polyhedral_path_characterization
 //@bodysub let mut cache = self.polytope_cache.borrow_mut(); => let mut cache: Vec<Polytope> = Vec::new();
 //@bodysub? cache.reserve(path.len()); =>
 //@bodysub for (idx, label) in path { => let mut __i: usize = 0; while __i < path.len() { let idx = &path[__i].0; let label = path[__i].1; __i += 1;
@@ -314,11 +286,10 @@ pub fn polyhedral_path_characterization(&self, path: &Vec<(TreeIndex, Label)>) -
         }
 //@end
 
-//@fn src/pwl/impl_infeasible_elim.rs | impl<const K: usize> AffTree<K> | is_edge_feasible | as=is_edge_feasible_v
+//@fn src/pwl/impl_infeasible_elim.rs | impl<const K: usize> AffTree<K> | is_edge_feasible
 //@bodysub tree.node_value(node_idx).unwrap() => tree.tree_node(node_idx).unwrap().value
 //@bodysub let node = self. => let node = &self.
 //@bodysub wit.iter().any(|point| poly.contains(point)) => any_contained(&poly, wit)
-//@bodysub self.polyhedral_path_characterization(&path) => self.polyhedral_path_characterization_v(&path)
 //@spec
     requires self.tree.wf(), K == 2, self.tree.root is Some, aff_shape_ok(self.a(), self.in_dim),
         parent_idx != 0 ==> self.a().dom().contains(node_idx) && self.a()[node_idx].parent == Some(parent_idx),
@@ -339,7 +310,7 @@ pub fn polyhedral_path_characterization(&self, path: &Vec<(TreeIndex, Label)>) -
                 assert(!no_kids(a[path@[i].0]));
             }
         }
-//@hint after let poly = self.polyhedral_path_characterization_v(&path);
+//@hint after let poly = self.polyhedral_path_characterization(&path);
         proof {
             let a = self.a();
             let root = self.tree.root.unwrap();
